@@ -2,7 +2,7 @@
 C18 -- decorators are transparent: same results, same signature, no double wrapping (DESIGN.md section 4, C18).
 
 E2 'programs': all 60 signatures (0..4 positional parameters, any number of trailing defaults, +-*args, +-**kwargs) x every
-valid call (as decided by inspect.signature.bind) x 10 decorators x all stacks of <= 2 (quick) / <= 3 (thorough) decorators:
+valid call (as decided by inspect.signature.bind) x 11 decorators x all stacks of <= 2 (quick) / <= 3 (thorough) decorators:
 results, argument specification, double wrapping, getcallargs / call_with_callargs, try_* fallbacks, kwargs_support.
 E1 'cache_histories': BFS over call sequences on a cached function against a call-counting dict model.
 """
@@ -93,10 +93,12 @@ def decorators():
     import pyg_base as P
     from pyg_base import try_none, try_nan, try_zero, try_false, try_list, try_back, kwargs_support, cache, loop, pd2np
     D = [('try_none', try_none), ('try_nan', try_nan), ('try_zero', try_zero), ('try_false', try_false), ('try_list', try_list),
-         ('try_back', try_back), ('kwargs_support', kwargs_support), ('cache', cache), ('loop', loop(list, tuple, dict)), ('pd2np', pd2np)]
+         ('try_back', try_back), ('kwargs_support', kwargs_support), ('cache', cache), ('loop', loop(list, tuple, dict)), ('pd2np', pd2np),
+         ('pd2np_exc_b', pd2np(exc='b'))]          # a decorator built with its optional parameter: b is passed through untouched, on pandas and on plain input alike
     return D
 
 
+NDEC = 11
 FALLBACK = dict(try_none=None, try_nan='nan', try_zero=0, try_false=False, try_list=[])
 
 
@@ -139,6 +141,14 @@ def check_program(case):
                 out.call()
                 if r != f(*args, **kw):
                     out.viol('call_with_callargs-differs', '%s: call_with_callargs(f, callargs) = %r, f(...) = %r' % (clab, r, f(*args, **kw)), va=sig['va'], vk=sig['vk'])
+                # the binding is the caller's: it must survive the call and serve a second one
+                if got != want:
+                    out.viol('callargs-consumed', '%s: after call_with_callargs(f, callargs) the callargs dict is %r (was %r)' % (clab, got, want), va=sig['va'], vk=sig['vk'])
+                else:
+                    r2 = call_with_callargs(f, got)
+                    out.call()
+                    if r2 != r:
+                        out.viol('call_with_callargs-differs', '%s: a second call_with_callargs on the same callargs gives %r, the first gave %r' % (clab, r2, r), va=sig['va'], vk=sig['vk'], second=True)
             except Exception as e:
                 out.viol('binding-raised', '%s: %s: %s' % (clab, type(e).__name__, e), exc=type(e).__name__, va=sig['va'], vk=sig['vk'])
             if kw and args:
@@ -317,7 +327,7 @@ def _chain(w):
 def gen_programs(depth, sig_subset3=None):
     for si in range(len(SIGS)):
         yield {'sig': si, 'dec': 'binding', 'depth': 0}
-        for di in range(10):
+        for di in range(NDEC):
             d = depth
             if depth == 3 and sig_subset3 is not None and si not in sig_subset3:
                 d = 2
@@ -531,10 +541,10 @@ def suites(tier, seed):
         depth_txt = 'all stacks of <= 2 decorators on every signature and all stacks of 3 on %d signatures' % len(sub3)
     return [
         Suite('programs', gen, check_program,
-              rule='all 60 signatures (0..4 positional parameters x trailing defaults x +-*args x +-**kwargs) x every valid call (inspect.signature.bind) x 10 decorators, '
+              rule='all 60 signatures (0..4 positional parameters x trailing defaults x +-*args x +-**kwargs) x every valid call (inspect.signature.bind) x 11 decorators (pd2np also built with exc=), '
                    '%s: result, getargspec, double wrapping, getcallargs / call_with_callargs, try_* fallbacks on a raising twin, kwargs_support keyword filtering; '
                    'non-trivial = calls mixing positional and keyword passing' % depth_txt,
-              bounds=dict(signatures=len(SIGS), decorators=10, stack_depth=2 if q else 3)),
+              bounds=dict(signatures=len(SIGS), decorators=NDEC, stack_depth=2 if q else 3)),
         Suite('try_exceptions', gen_tries, check_tries,
               rule='%d exception objects (payloads: string, tuple, empty tuple, list, dict, none, several args, %%-patterns, errno pairs; KeyError .. OSError and a user class) x '
                    '{try_none, try_nan, try_zero, try_false, try_true, try_list, try_back} x 4 call spellings; try_value(f, repeat=r, value=V, verbose=v) for 5 values x '
